@@ -91,9 +91,9 @@ impl Names
     }
 }
 
-fn file_json(f : &VFileData, label : String, rank : &BTreeMap<u64, usize>) -> Value
+fn file_json(f : &VFileData, label : String, _rank : &BTreeMap<u64, usize>) -> Value
 {
-    json!({"c" : label, "m" : rank.get(&f.mtime).cloned().unwrap_or(0), "x" : f.exec})
+    json!({"c" : label, "m" : f.mtime, "x" : f.exec})
 }
 
 pub fn project(files : &BTreeMap<String, VFileData>, dirs : &BTreeSet<String>, fs : &Fs, names : &Names, ord : &Vec<String>) -> Value
@@ -153,7 +153,7 @@ pub fn project(files : &BTreeMap<String, VFileData>, dirs : &BTreeSet<String>, f
         {
             for (p, (h, m, x)) in t.iter()
             {
-                fstab.insert(p.clone(), json!({"h" : fs.label_of_ticket(&b62(h)), "m" : rank.get(m).cloned().unwrap_or(if *m == 0 { 0 } else { 9999 }), "x" : x}));
+                fstab.insert(p.clone(), json!({"h" : fs.label_of_ticket(&b62(h)), "m" : m, "x" : x}));
             }
             "ok"
         },
